@@ -145,6 +145,16 @@ pub fn retire_connection_id(seq: u64) -> Vec<u8> {
     b
 }
 
+/// DATAGRAM (RFC 9221 4): type 0x31 with a Length field, 0x30 without (the payload runs to the end of the packet)
+pub fn datagram(payload_len: usize, with_len: bool) -> Vec<u8> {
+    let mut b = vec![if with_len { 0x31 } else { 0x30 }];
+    if with_len {
+        put_varint(&mut b, payload_len as u64);
+    }
+    b.extend(std::iter::repeat_n(0xd7u8, payload_len));
+    b
+}
+
 /// What `read_plain_packet` does with the payload of a 1-RTT packet holding exactly this frame.
 pub fn parse_one(raw: Vec<u8>) -> Result<Frame, ErrorKind> {
     let mut reader = FrameReader::new(Bytes::from(raw), Type::Short(OneRtt::from(0u8)));
